@@ -14,7 +14,7 @@ set_option linter.unusedSectionVars false
 set_option linter.unusedSimpArgs false
 namespace OAS
 namespace C01Patterns
-open Finset Glue
+open Finset Glue VLM
 
 /-- a sum over `2m` consecutive entries taken in pairs -/
 theorem sum_pairs (m : ℕ) (f : ℕ → ℝ) : ∑ k ∈ range (2 * m), f k = ∑ r ∈ range m, (f (2 * r) + f (2 * r + 1)) := by
@@ -177,6 +177,126 @@ theorem c01_compute_nodes_pattern_in_range (nx ny k : ℕ) (hx : 1 ≤ nx) (hk :
   obtain ⟨p, rfl⟩ : ∃ p, nx = p + 1 := ⟨nx - 1, by omega⟩
   simp only [Nat.add_sub_cancel, Nat.add_mul, Nat.one_mul]
   split <;> omega
+
+
+/-! ### CollocationPoints: the declared constant partials are the Jacobian of the model, for every mesh size and row offset -/
+
+theorem get_add4 (a b c d : ℝ) (u v w x : V3 ℝ) (k : ℕ) :
+    (V3.smul a u + V3.smul b v + V3.smul c w + V3.smul d x).get k = a * u.get k + b * v.get k + c * w.get k + d * x.get k := by
+  show (V3.add (V3.add (V3.add (V3.smul a u) (V3.smul b v)) (V3.smul c w)) (V3.smul d x)).get k = _
+  unfold V3.get V3.add V3.smul
+  split_ifs <;> rfl
+
+/-- flattened mesh entry of node `(i, j)`, component `c`, `j < ny` -/
+theorem meshFlat_node (ny : ℕ) (m : Mesh ℝ) (i j c : ℕ) (hj : j < ny) (hc : c < 3) :
+    meshFlat ny m ((i * ny + j) * 3 + c) = (m i j).get c := by
+  unfold meshFlat
+  have a1 : ((i * ny + j) * 3 + c) / 3 = i * ny + j := by omega
+  have a2 : ((i * ny + j) * 3 + c) % 3 = c := by omega
+  have hny : 0 < ny := by omega
+  rw [a1, a2, Nat.add_comm (i * ny) j, Nat.add_mul_div_right _ _ hny, Nat.add_mul_mod_self_right, Nat.div_eq_of_lt hj,
+    Nat.mod_eq_of_lt hj, Nat.zero_add]
+
+/-- panel `(i, j)`, component `c` ↦ flattened local index, and back -/
+theorem panel_index (ny1 i j c : ℕ) (hj : j < ny1) (hc : c < 3) :
+    ((i * ny1 + j) * 3 + c) / 3 / ny1 = i ∧ ((i * ny1 + j) * 3 + c) / 3 % ny1 = j ∧ ((i * ny1 + j) * 3 + c) % 3 = c := by
+  have a1 : ((i * ny1 + j) * 3 + c) / 3 = i * ny1 + j := by omega
+  have hny : 0 < ny1 := by omega
+  refine ⟨?_, ?_, by omega⟩
+  · rw [a1, Nat.add_comm, Nat.add_mul_div_right _ _ hny, Nat.div_eq_of_lt hj, Nat.zero_add]
+  · rw [a1, Nat.add_comm, Nat.add_mul_mod_self_right, Nat.mod_eq_of_lt hj]
+
+/-- one block of the pattern: entries `b·m … b·m + m − 1` -/
+theorem block_sum (m b r : ℕ) (hr : r < m) (g : ℕ → ℕ → ℝ) :
+    (∑ x ∈ range m, if x = r then g b x else 0) = g b r := by
+  rw [Finset.sum_ite_eq' (range m) r]; simp [Finset.mem_range.mpr hr]
+
+theorem div_mod_block (m b x : ℕ) (hx : x < m) : (b * m + x) / m = b ∧ (b * m + x) % m = x := by
+  have hm : 0 < m := by omega
+  constructor
+  · rw [Nat.add_comm, Nat.add_mul_div_right _ _ hm, Nat.div_eq_of_lt hx, Nat.zero_add]
+  · rw [Nat.add_comm, Nat.add_mul_mod_self_right, Nat.mod_eq_of_lt hx]
+
+/-- the pattern sum, block by block -/
+theorem sum_four_blocks (m : ℕ) (f : ℕ → ℝ) :
+    ∑ k ∈ range (4 * m), f k = ∑ x ∈ range m, (f (0 * m + x) + f (1 * m + x) + f (2 * m + x) + f (3 * m + x)) := by
+  have e : 4 * m = m + m + m + m := by ring
+  rw [e, Finset.sum_range_add, Finset.sum_range_add, Finset.sum_range_add, ← Finset.sum_add_distrib, ← Finset.sum_add_distrib,
+    ← Finset.sum_add_distrib]
+  refine Finset.sum_congr rfl fun x _ => ?_
+  have e1 : 1 * m + x = m + x := by ring
+  have e2 : 2 * m + x = m + m + x := by ring
+  have e3 : 3 * m + x = m + m + m + x := by ring
+  rw [e1, e2, e3]; simp
+
+/-- **the declared `rows/cols/val` of `CollocationPoints` expand to its three outputs** (hence are their Jacobians, the outputs being
+linear in the mesh): for every `nx, ny`, every row offset `off`, every panel `(i, j)` and component `c` -/
+theorem c01_collocation_pattern (which : ℕ) (s : Surf ℝ) (off i j c : ℕ) (hi : i < s.nx - 1) (hj : j < s.ny - 1) (hc : c < 3) :
+    (if which = 0 then collPt s i j else if which = 1 then forcePt s i j else boundVec s i j).get c =
+      ∑ k ∈ range (4 * (3 * ((s.nx - 1) * (s.ny - 1)))),
+        if collRow s.nx s.ny off k = off + ((i * (s.ny - 1) + j) * 3 + c) then
+          collVal which s.nx s.ny k * meshFlat s.ny s.mesh (collCol s.nx s.ny k) else 0 := by
+  set ny1 := s.ny - 1 with hny1
+  set m := 3 * ((s.nx - 1) * ny1) with hm
+  set r := (i * ny1 + j) * 3 + c with hr
+  have hrm : r < m := by
+    have : i * ny1 + j < (s.nx - 1) * ny1 := by
+      calc i * ny1 + j < i * ny1 + ny1 := by omega
+        _ = (i + 1) * ny1 := by ring
+        _ ≤ (s.nx - 1) * ny1 := Nat.mul_le_mul_right _ (by omega)
+    omega
+  obtain ⟨p1, p2, p3⟩ : r / 3 / ny1 = i ∧ r / 3 % ny1 = j ∧ r % 3 = c := panel_index ny1 i j c hj hc
+  have hjy : j < s.ny := by omega
+  have hjy1 : j + 1 < s.ny := by omega
+  rw [sum_four_blocks]
+  have key : ∀ x ∈ range m, ∀ b, b < 4 →
+      (if collRow s.nx s.ny off (b * m + x) = off + r then
+          collVal which s.nx s.ny (b * m + x) * meshFlat s.ny s.mesh (collCol s.nx s.ny (b * m + x)) else 0)
+      = if x = r then collVal which s.nx s.ny (b * m + r) * meshFlat s.ny s.mesh (collCol s.nx s.ny (b * m + r)) else 0 := by
+    intro x hx b _
+    have hx' : x < m := Finset.mem_range.mp hx
+    have hrow : collRow s.nx s.ny off (b * m + x) = off + x := by
+      unfold collRow; rw [← hny1, ← hm, (div_mod_block m b x hx').2]
+    rw [hrow]
+    by_cases h : x = r
+    · subst h; simp
+    · have : ¬ (off + x = off + r) := by omega
+      simp [h, this]
+  rw [Finset.sum_congr rfl (fun x hx => by rw [key x hx 0 (by omega), key x hx 1 (by omega), key x hx 2 (by omega), key x hx 3 (by omega)])]
+  simp only [← Finset.sum_add_distrib.symm, Finset.sum_add_distrib, Finset.sum_ite_eq' (range m) r, Finset.mem_range.mpr hrm, if_true]
+  -- the four columns are the four corner nodes of panel (i, j)
+  have col : ∀ b, b < 4 → collCol s.nx s.ny (b * m + r)
+      = ((i + (if b % 2 = 1 then 1 else 0)) * s.ny + (j + (if 2 ≤ b then 1 else 0))) * 3 + c := by
+    intro b _
+    unfold collCol
+    simp only [← hny1, ← hm, (div_mod_block m b r hrm).1, (div_mod_block m b r hrm).2, p1, p2, p3]
+  have val : ∀ b, collVal which s.nx s.ny (b * m + r) = collVal which s.nx s.ny (b * m + r) := fun _ => rfl
+  have bdiv : ∀ b, (b * m + r) / (3 * ((s.nx - 1) * (s.ny - 1))) = b := fun b => by rw [← hny1, ← hm]; exact (div_mod_block m b r hrm).1
+  rw [col 0 (by omega), col 1 (by omega), col 2 (by omega), col 3 (by omega)]
+  simp only [show (0 : ℕ) % 2 = 1 ↔ False by decide, show (1 : ℕ) % 2 = 1 ↔ True by decide, show (2 : ℕ) % 2 = 1 ↔ False by decide,
+    show (3 : ℕ) % 2 = 1 ↔ True by decide, show (2 : ℕ) ≤ 0 ↔ False by decide, show (2 : ℕ) ≤ 1 ↔ False by decide,
+    show (2 : ℕ) ≤ 2 ↔ True by decide, show (2 : ℕ) ≤ 3 ↔ True by decide, if_true, if_false, Nat.add_zero]
+  rw [meshFlat_node s.ny s.mesh i j c hjy hc, meshFlat_node s.ny s.mesh (i + 1) j c hjy hc,
+    meshFlat_node s.ny s.mesh i (j + 1) c hjy1 hc, meshFlat_node s.ny s.mesh (i + 1) (j + 1) c hjy1 hc]
+  unfold collVal
+  simp only [bdiv]
+  rcases Nat.lt_or_ge which 1 with h0 | h0
+  · have : which = 0 := by omega
+    subst this
+    show (collPt s i j).get c = _
+    unfold collPt; rw [get_add4]
+    norm_num
+  · rcases Nat.lt_or_ge which 2 with h1 | h1
+    · have : which = 1 := by omega
+      subst this
+      show (forcePt s i j).get c = _
+      unfold forcePt; rw [get_add4]
+      norm_num
+    · have w0 : ¬ which = 0 := by omega
+      have w1 : ¬ which = 1 := by omega
+      simp only [w0, w1, if_false]
+      unfold boundVec; rw [get_add4]
+      norm_num
 
 end C01Patterns
 end OAS
